@@ -151,11 +151,15 @@ OutDom2(op, a, b) ==
   LET sh == BroadcastShape(a.sh, b.sh) IN
   CASE op.n \in {"eq", "ne", "lt", "le", "gt", "ge"} -> Dom(2, sh)
     [] op.n = "getitem" -> Dom(a.dt, DropAt(a.sh, op.p[1] + 1))
+    \* numpy matmul: the last axis of a against the second-to-last of b (the only one of a
+    \* vector); leading (batch) axes broadcast
     [] op.n = "matmul" ->
-         (IF Len(a.sh) \notin {1, 2} \/ Len(b.sh) \notin {1, 2} THEN Dom(-1, <<>>)
-          ELSE Dom(0, CASE Len(b.sh) = 1 -> SubSeq(a.sh, 1, Len(a.sh) - 1)
-                        [] Len(a.sh) = 1 -> <<b.sh[2]>>
-                        [] OTHER -> <<a.sh[1], b.sh[2]>>))
+         (LET ra == Len(a.sh)  rb == Len(b.sh) IN
+          IF ra < 1 \/ rb < 1 THEN Dom(-1, <<>>)
+          ELSE Dom(0, CASE rb = 1 -> SubSeq(a.sh, 1, ra - 1)
+                        [] ra = 1 -> SubSeq(b.sh, 1, rb - 2) \o <<b.sh[rb]>>
+                        [] OTHER -> BroadcastShape(SubSeq(a.sh, 1, ra - 2), SubSeq(b.sh, 1, rb - 2))
+                                    \o <<a.sh[ra - 1], b.sh[rb]>>))
     [] a.dt = 0 \/ b.dt = 0 -> Dom(0, sh)
     [] op.n = "add" -> Dom(a.dt + b.dt - 1, sh)
     [] op.n = "mul" -> Dom((a.dt - 1) * (b.dt - 1) + 1, sh)
